@@ -207,10 +207,6 @@ type world struct {
 	recID     string
 	tok       string // a token of this group, created in-process
 	tokExp    time.Time
-	// ids of streams whose offer was performed: the server announces a stream to the
-	// other members 200 ms (of real time) after the offer, so events about these ids may
-	// arrive during any later step and are not effects of that step
-	published map[string]bool
 
 	mu   sync.Mutex
 	log  []string
@@ -840,12 +836,7 @@ func (w *world) perform(a *actor, ks kindSpec, tgt *vclient.Client, j job, expec
 	seen := map[*vclient.Client][]vclient.Msg{}
 	otherNews := 0
 	for _, c := range w.clients() {
-		for _, e := range news(c, mark[c]) {
-			if c != a.c && e.Str("type") == "close" && w.published[e.Str("id")] {
-				continue // late announcement of an earlier, legitimately published stream
-			}
-			seen[c] = append(seen[c], e)
-		}
+		seen[c] = news(c, mark[c])
 		if c != a.c {
 			otherNews += len(seen[c])
 		}
@@ -1094,10 +1085,20 @@ func (w *world) perform(a *actor, ks kindSpec, tgt *vclient.Client, j job, expec
 		out.detail = fmt.Sprintf("actor got an answer: %v, an abort: %v", answered, aborted)
 		if answered {
 			a.streams = append(a.streams, streamID)
-			if w.published == nil {
-				w.published = map[string]bool{}
+			// The server announces a new stream to the other members 200 ms (of real
+			// time) after the offer; a stream without media is announced as 'close'.
+			// Wait for that announcement at everybody, so that it (and what a recorder
+			// says about the stream at that moment) is not taken for the effect of a
+			// later message.
+			for _, c := range mo {
+				if _, ok := c.WaitForFrom(mark[c], func(e vclient.Msg) bool { return e.Str("type") == "close" && e.Str("id") == streamID }, 30*time.Second); !ok && !closedNow(c) {
+					w.inconclusive("a published stream was never announced to " + c.ID)
+					return outcome{wd: true}
+				}
 			}
-			w.published[streamID] = true
+			if !w.quiesce() {
+				return outcome{wd: true}
+			}
 		}
 	}
 	if !out.performed && otherNews > 0 {
